@@ -273,7 +273,7 @@ def size : C → Nat
   | .letIn _ _ _ _ rhs _ body => size rhs + size body + 1
 
 /-- Fuel that always suffices for a printed tree (theorem `parse_print`). -/
-def fuelFor (c : C) : Nat := 6 * size c + 6
+def fuelFor (c : C) : Nat := 10 * size c + 6
 
 /-! ### The abstract tree and redundant parentheses -/
 
@@ -320,10 +320,21 @@ def isReal (t : Tok) : Bool :=
 
 def realToks (c : C) : List Tok := (toks c).filter isReal
 
+def firstReal : List Tok → Option Tok
+  | [] => none
+  | t :: r => if isReal t then some t else firstReal r
+
+def lastReal : List Tok → Option Tok
+  | [] => none
+  | t :: r =>
+    match lastReal r with
+    | some x => some x
+    | none => if isReal t then some t else none
+
 /-- Extent of a token list: start of its first real token, end of its last real token. -/
 def extent (ts : List Tok) : Option Span :=
-  match ts.filter isReal with
-  | [] => none
-  | t :: r => some ⟨t.sp.s, ((t :: r).getLast?.getD t).sp.e⟩
+  match firstReal ts, lastReal ts with
+  | some a, some b => some ⟨a.sp.s, b.sp.e⟩
+  | _, _ => none
 
 end GluonModel.ExprGrammar
